@@ -11,8 +11,10 @@ from vlib.common import PROVED, REFUTED, UNKNOWN
 # `fixed-*` records suppress nothing, their obligations must be PROVED
 KNOWN = [
     (c09_edits.FID_COLLIDE, re.compile(r"^rename\..*\[any numbering\]$")),
+    (c09_edits.FID_TS_TEXT, re.compile(r"^overwrite\.partition_text_conventions_agree\[(category of )?datetime64")),
+    (c09_edits.FID_F32_TEXT, re.compile(r"^overwrite\.partition_text_conventions_agree\[float32 \(inexact decimals\)\]$")),
 ]
-FUNC = [("row_groups_map.", "api.row_groups_map"), ("remove", "api.ParquetFile.remove_row_groups"), ("overwrite", "writer.overwrite"),
+FUNC = [("row_groups_map.", "api.row_groups_map"), ("remove", "api.ParquetFile.remove_row_groups"), ("overwrite.partition_text", "writer.overwrite"), ("overwrite", "writer.overwrite"),
         ("part_ids", "api.part_ids"), ("partitions", "api.partitions"), ("rename", "api.ParquetFile._sort_part_names"),
         ("_sort_part_names", "api.ParquetFile._sort_part_names")]
 
